@@ -312,17 +312,21 @@ Definition emit_param (p : param) : res block :=
                  else Err ETrunc
        end.
 
-(* run-time value of one block on the field value v: the pair it writes into header_params, if any *)
+(* run-time value of one block on the field value v: the pair it writes into header_params, if any.
+   regex_match.group(key): with no group in the pattern the key is the field name and .group raises
+   IndexError as soon as the pattern matches; a group that took no part yields None (falsy). *)
 Definition contribution (p : param) (v : string) : res (option (string * string)) :=
   if is_empty (p_template p) then
     Ok (if is_empty v then None else Some (p_field p, v))
   else match convert_to_regex (p_template p) with
        | Err e => Err e
        | Ok r =>
-           match rx_match r v with
-           | None => Ok None                                   (* regex_match is None *)
-           | Some None => Err EIndex                          (* .group(field) on a regex without groups *)
-           | Some (Some cap) => Ok (if is_empty cap then None else Some (key_of (p_field p) r, cap))
+           match first_group r with
+           | None => match rx_match r v with None => Ok None | Some _ => Err EIndex end
+           | Some k => match rx_match r v with
+                       | Some (Some cap) => Ok (if is_empty cap then None else Some (k, cap))
+                       | _ => Ok None
+                       end
            end
        end.
 
